@@ -12,6 +12,8 @@ import json, os, random, re, subprocess, sys, time, hashlib
 from concurrent.futures import ThreadPoolExecutor
 
 VERIF = os.path.dirname(os.path.dirname(os.path.abspath(__file__)))
+# evidence/ and replay/ normally live in /verif; runs against a scratch tree (seeded changes) redirect them
+OUTDIR = os.environ.get("VERIF_OUT", VERIF)
 NCPU = int(os.environ.get("VERIF_JOBS", os.cpu_count() or 4))
 
 
@@ -159,11 +161,11 @@ class Check:
                     self._write_evidence(0, broken=True)
                     sys.exit(2)
             reported.append(sig)
-        os.makedirs(os.path.join(VERIF, "replay", self.prop), exist_ok=True)
+        os.makedirs(os.path.join(OUTDIR, "replay", self.prop), exist_ok=True)
         lines = []
         for sig in reported:
             name = hashlib.sha1(sig.encode()).hexdigest()[:16] + ".json"
-            path = os.path.join(VERIF, "replay", self.prop, name)
+            path = os.path.join(OUTDIR, "replay", self.prop, name)
             with open(path, "w") as fh:
                 json.dump({"property": self.prop, "sig": sig, "detail": r.viol[sig],
                            "replay": "python3 /verif/check.py %s --replay %s" % (self.prop, path)}, fh, indent=1)
@@ -220,8 +222,8 @@ class Check:
         }
         if broken:
             ev["harness_error"] = True
-        os.makedirs(os.path.join(VERIF, "evidence"), exist_ok=True)
-        path = os.path.join(VERIF, "evidence", self.prop + ".json")
+        os.makedirs(os.path.join(OUTDIR, "evidence"), exist_ok=True)
+        path = os.path.join(OUTDIR, "evidence", self.prop + ".json")
         tmp = path + ".tmp%d" % os.getpid()
         with open(tmp, "w") as fh:
             json.dump(ev, fh, indent=1)
